@@ -7,7 +7,7 @@ from vf.ob import obligation, shard
 from tartiflette import Resolver, Directive, Scalar
 
 META = {
-    "bounds": "4 decorated schemas (0..3 tagging directives on every attachable element: scalar, input field, input object, argument, field, enum type, enum value, object type) x "
+    "bounds": "6 decorated schemas (0..3 different tagging directives on every attachable element, the same directive twice with different arguments, and t1 t2 t1: scalar, input field, input object, argument, field, enum type, enum value, object type) x "
               "0..2 query-side field directives x 3 ways of supplying the input (literal, whole-object variable, variable nested in the object literal); the value and the "
               "query-side directive arguments are unbounded ints",
     "outside": "interface/union type-level hooks; relative order of enum-value vs enum-type output hooks (the property writes 'enum-value/type'); more than 3 directives per element",
@@ -68,8 +68,13 @@ NAMES = ["t1", "t2", "t3"]
 TAGS = {"S": [11, 12, 13], "x": [21, 22, 23], "I": [31, 32, 33], "arg": [41, 42, 43], "f": [51, 52, 53], "E": [61, 62, 63], "RED": [71, 72, 73], "O": [81, 82, 83], "earg": [91, 92, 93]}
 
 
+def names_of(k):
+    """k = 0..3: that many different directives per element; 4: the SAME directive twice with different arguments; 5: t1, t2, t1"""
+    return {4: ["t1", "t1"], 5: ["t1", "t2", "t1"]}.get(k, NAMES[:k])
+
+
 def dirs(elem, k):
-    return " ".join("@%s(n: %d)" % (NAMES[j], TAGS[elem][j]) for j in range(k))
+    return " ".join("@%s(n: %d)" % (nm, TAGS[elem][j]) for j, nm in enumerate(names_of(k)))
 
 
 def sdl(k):
@@ -84,7 +89,7 @@ type Query { f(i: I %s): S %s  e(c: Color %s): Color  o: O }
 
 
 ENGS = {}
-for _k in range(4):
+for _k in range(6):
     _name = "c13_%d" % _k
     for _d in NAMES + ["q1", "q2"]:
         Directive(_d, schema_name=_name)(Tag(_d))
@@ -140,27 +145,29 @@ def subst_int(node, n):
 def expected(k, qd, v, n1, n2):
     """(value the resolver receives, value in data, expected log)"""
     log = []
+    NM = names_of(k)
+    k = len(NM)
 
     def stage_in(elem, val):
-        tags = TAGS[elem][:k]
+        tags = TAGS[elem][:len(NM)]
         for j, t in enumerate(tags):
-            log.append(("in>", NAMES[j], t))
+            log.append(("in>", NM[j], t))
         for j in range(len(tags) - 1, -1, -1):
-            log.append(("in<", NAMES[j], tags[j]))
+            log.append(("in<", NM[j], tags[j]))
             val = ap(val, tags[j])
         return val
     val = stage_in("S", v)
     val = stage_in("x", val)
     val = stage_in("I", val)
     for j, t in enumerate(TAGS["arg"][:k]):
-        log.append(("arg>", NAMES[j], t))
+        log.append(("arg>", NM[j], t))
     for t in reversed(TAGS["arg"][:k]):
         val = ap(val, t)
     q = {0: [], 1: [("q1", n1)], 2: [("q1", n1), ("q2", n2)], 3: [("q2", n2), ("q1", n1)]}[qd]
     for name, n in q:
         log.append(("field>", name, n))
     for j, t in enumerate(TAGS["f"][:k]):
-        log.append(("field>", NAMES[j], t))
+        log.append(("field>", NM[j], t))
     log.append(("resolver", val))
     seen = val
     for t in reversed(TAGS["f"][:k]):
@@ -168,7 +175,7 @@ def expected(k, qd, v, n1, n2):
     for name, n in reversed(q):
         val = ap(val, n)
     for j, t in enumerate(TAGS["S"][:k]):
-        log.append(("out>", NAMES[j], t))
+        log.append(("out>", NM[j], t))
     for t in reversed(TAGS["S"][:k]):
         val = ap(val, t)
     return seen, val, log
@@ -186,7 +193,7 @@ def same_log(got, exp):
     return True
 
 
-@obligation(tier="quick", timeout=200, shards=[{"k": k, "qd": qd} for k in range(4) for qd in range(4)],
+@obligation(tier="quick", timeout=200, shards=[{"k": k, "qd": qd} for k in range(6) for qd in range(4)],
             samples=[{"v": 1, "n1": 7, "n2": 9, "mode": 0}, {"v": -5, "n1": 0, "n2": 100, "mode": 2}],
             symbolic=["v: int (unbounded) — the value flowing through the chain", "n1, n2: int — arguments of the query-side directives (through variables)"],
             selectors=["mode: literal / whole-object variable / variable nested in the object literal", "shard: directives per element (0..3), query-side directives (none, one, two, two swapped)"],
@@ -199,8 +206,14 @@ def c13_chain(v: int, n1: int, n2: int, mode: int) -> bool:
     sh = shard()
     k, qd = sh["k"], sh["qd"]
     mode = pick(mode, 3)
+    if not (-2 ** 31 <= n1 < 2 ** 31 and -2 ** 31 <= n2 < 2 ** 31):
+        return True          # $n1/$n2 are Int! variables: values outside 32 bits are refused (C04's subject)
     del LOG[:]
-    variables = {"n1": n1, "n2": n2}
+    variables = {}
+    if "$n1" in QDIRS[qd]:
+        variables["n1"] = n1
+    if "$n2" in QDIRS[qd]:
+        variables["n2"] = n2
     ast = ASTS[(mode, qd)]
     if mode == 0:
         ast = subst_int(ast, v)
@@ -223,7 +236,7 @@ def c13_chain(v: int, n1: int, n2: int, mode: int) -> bool:
     return verdict(r["data"]["f"] == val and same_log(log, elog))
 
 
-@obligation(tier="quick", timeout=120, shards=[{"k": k} for k in range(4)],
+@obligation(tier="quick", timeout=120, shards=[{"k": k} for k in range(6)],
             samples=[{"which": 0, "lit": True}, {"which": 1, "lit": False}],
             selectors=["which: enum round trip / object-typed field", "lit: enum supplied as literal or through a variable"], bounds="4 schemas x 2 positions x 2 supply modes",
             note="enum type/value hooks, argument hooks and object type-level hooks: each instance exactly once per value, input hooks in declaration order, same for literal and variable")
@@ -231,7 +244,9 @@ def c13_enum_object(which: int, lit: bool) -> bool:
     """
     post: _
     """
+    NM = names_of(shard()["k"])
     k = shard()["k"]
+    n = len(NM)
     which = pick(which, 2); lit = pickb(lit)
     del LOG[:]
     if which == 0:
@@ -244,15 +259,15 @@ def c13_enum_object(which: int, lit: bool) -> bool:
         ins = [e for e in log if e[0] == "in>"]
         outs = [e for e in log if e[0] == "out>"]
         args = [e for e in log if e[0] == "arg>"]
-        exp_in = sorted([(NAMES[j], TAGS[el][j]) for el in ("E", "RED") for j in range(k)])
+        exp_in = sorted([(NM[j], TAGS[el][j]) for el in ("E", "RED") for j in range(n)])
         if sorted((e[1], e[2]) for e in ins) != exp_in or sorted((e[1], e[2]) for e in outs) != exp_in:
             return verdict(False)
-        if [(e[1], e[2]) for e in args] != [(NAMES[j], TAGS["earg"][j]) for j in range(k)]:
+        if [(e[1], e[2]) for e in args] != [(NM[j], TAGS["earg"][j]) for j in range(n)]:
             return verdict(False)
         # within one element: declaration order
         for el in ("E", "RED"):
             sub = [e[2] for e in ins if e[2] in TAGS[el]]
-            if sub != TAGS[el][:k]:
+            if sub != TAGS[el][:n]:
                 return verdict(False)
         return verdict(True)
     ok, r = safe(lambda: env.run(ENGS[k].execute("{ o { n } }")))
@@ -261,10 +276,10 @@ def c13_enum_object(which: int, lit: bool) -> bool:
     if not ok or r.get("errors"):
         return verdict(False)
     outs = [(e[1], e[2]) for e in log if e[0] == "out>"]
-    exp = [(NAMES[j], TAGS["O"][j]) for j in range(k)] + [(NAMES[j], TAGS["S"][j]) for j in range(k)]
+    exp = [(NM[j], TAGS["O"][j]) for j in range(n)] + [(NM[j], TAGS["S"][j]) for j in range(n)]
     val = 5
-    for t in reversed(TAGS["O"][:k]):
+    for t in reversed(TAGS["O"][:n]):
         val = ap(val, t)          # the object-level hook sees (and here rewrites) the whole object value
-    for t in reversed(TAGS["S"][:k]):
+    for t in reversed(TAGS["S"][:n]):
         val = ap(val, t)
     return verdict(outs == exp and r["data"] == {"o": {"n": val}})
